@@ -405,7 +405,7 @@ pub fn run(args: &Args) -> Report {
         }
     }
     // --- random whole documents on top
-    let nrand = if args.thorough { 20000 } else { 300 };
+    let nrand = if args.thorough { 20000 } else { 900 };
     for i in 0..nrand {
         let v = [6u8, 5, 4, 3][i % 4];
         // position-restricted items in ascending order (the RESERVED reordering is C01's known finding, not a C04 matter)
